@@ -137,6 +137,15 @@ def check(chk):
                                       "json=" in src(n.ast.value))]
     ok = bool(jd) and all(ecfg.guards_at(n.id).get("json_needed") is True and "json.dumps(kwargs" in src(n.ast.value) for n in jd)
     chk.ob("DOM-37", "the JSON form carries all parameters", ok, enc.where(), construct=enc.ident, text="json body")
+    # the JSON form carries every value the decoder accepts back: no option of the dump narrows it (json.loads reads NaN / Infinity, so the
+    # dump must not refuse them; nothing is skipped or replaced by a fallback)
+    NARROWING = {"allow_nan", "skipkeys", "default", "check_circular"}
+    for n in jd:
+        for c in [x for x in ast.walk(n.ast.value) if isinstance(x, ast.Call) and call_attr(x) == "dumps"]:
+            kws = {k_.arg: src(k_.value) for k_ in c.keywords}
+            ok2 = [src(a) for a in c.args] == ["kwargs"] and kws.get("cls") == "MpfJSONEncoder" and not (set(kws) & NARROWING)
+            chk.ob("DOM-37", "the JSON form dumps all parameters with the MPF encoder and no narrowing option (what json.loads accepts, json.dumps emits)", ok2,
+                   enc.where(c), detail=str(kws), construct=enc.ident, text="json dump options")
 
     # ------------------------------------------------------------ decoder
     dcfg = dec.cfg()
@@ -450,6 +459,7 @@ def battery():
         M("decoder accepts the None tag only for some names", BS, "        elif value == 'NoneType:':\n            kwargs[name] = None", "        elif value == 'NoneType:' and name != 'value':\n            kwargs[name] = None", "TABLE-9"),
         M("decoder drops parameters named like an earlier prefix", BS, "        if name in kwargs:\n            continue", "        if name in kwargs or name.startswith('_'):\n            continue", "TABLE-9"),
         M("only the last parameter is sent", BS, "        kwarg_string += '{}={}&'.format(quote(k, ''),", "        kwarg_string = '{}={}&'.format(quote(k, ''),", "LAYER-1"),
+        M("JSON form refuses non-finite floats", BS, "json.dumps(kwargs, cls=MpfJSONEncoder)", "json.dumps(kwargs, cls=MpfJSONEncoder, allow_nan=False)", "DOM-37"),
     ]
 
 
